@@ -8,3 +8,4 @@ import WrglModel.Props.C14
 #print axioms Wrgl.C14_discard_frame
 #print axioms Wrgl.C14_unguarded_double_commit
 #print axioms Wrgl.C14_unguarded_discard_side_effect
+#print axioms Wrgl.C14_discard_fault
